@@ -21,7 +21,7 @@ import (
 )
 
 func init() {
-	pbt.Describe("read: (log seed, tree size N biased to 2^k+-1 and to sizes whose tree-hash tiles coincide, tile height H in {1,2,3,4,8,10}, a set of in-tree hash positions at any level, 0-3 faults on the tiles actually requested). Faults: any single bit, swap/duplicate hashes, another tile of the same tree, the same tile of a forked tree sharing a prefix, truncate/extend by a byte or a hash, empty, zeroed, fewer/more result slices. The tile reader serves reference tiles computed from leaf data. Oracle: honest service => exactly the true stored hashes; otherwise an error, or still the true hashes; every (tile,data) handed to SaveTiles is byte-identical to the true tile. enum: every single position x every requested tile x a fixed fault menu for all N up to a bound and H in {1,2,3(,4)}. publish: growth schedules 0=n0<n1<...; a reader that serves only coordinates returned by NewTiles (or the published full tile for a partial request) must satisfy reads of every position of every tree n_i. tiledata/path: ReadTileData/HashFromTile/TileForIndex against the reference, and Tile<->path bijection against an independently written formatter. Non-trivial: read/enum = a delivered tile differs from the truth and is NOT one of the tree-hash tiles, or it is a tree-hash tile shared by two subtree hashes, or (honest) >=3 tiles planned; publish = >=2 growth steps; path = valid tile or accepted string. Distinct by JSON rendering. The hashes the first ReadHashes returned are compared with the reference again after the second read on the same reader.",
+	pbt.Describe("read: (log seed, tree size N biased to 2^k+-1 and to sizes whose tree-hash tiles coincide, tile height H in {1,2,3,4,8,10}, a set of in-tree hash positions at any level, 0-3 faults on the tiles actually requested). Faults: any single bit, swap/duplicate hashes, another tile of the same tree, the same tile of a forked tree sharing a prefix, truncate/extend by a byte or a hash, empty, zeroed, fewer/more result slices. The tile reader serves reference tiles computed from leaf data. Oracle: honest service => exactly the true stored hashes; otherwise an error, or still the true hashes; every (tile,data) handed to SaveTiles is byte-identical to the true tile. enum: every single position x every requested tile x a fixed fault menu for all N up to a bound and H in {1,2,3(,4)}. publish: growth schedules 0=n0<n1<...; a reader that serves only coordinates returned by NewTiles (or the published full tile for a partial request) must satisfy reads of every position of every tree n_i. tiledata/path: ReadTileData/HashFromTile/TileForIndex against the reference, and Tile<->path bijection against an independently written formatter. Non-trivial: read/enum = a delivered tile differs from the truth and is NOT one of the tree-hash tiles, or it is a tree-hash tile shared by two subtree hashes, or (honest) >=3 tiles planned; publish = >=2 growth steps; path = valid tile or accepted string. Distinct by JSON rendering. The hashes the first ReadHashes returned are compared with the reference again after the second read on the same reader. 1% of the read cases ask in one call for the record hash of every, every second or every third record of a log of 300-9000 records (thousands of tiles in one plan). Tile numbers of the path round trip go up to MaxInt64.",
 		"merkleref reference tiles are correct; SHA-256 collision-free", "tree has at least one record; requested positions are non-negative", "ParseTilePath accepting L>63 (outside Tile's documented range) is not asserted against")
 }
 
@@ -56,6 +56,7 @@ type readCase struct {
 	Coords  []coord
 	Coords2 []coord // a second ReadHashes call on the SAME reader (nil = none)
 	Faults  []fault
+	Bulk    int `json:",omitempty"` // >0: the first read asks for the record hash of every Bulk'th record (hundreds to thousands of tiles in one call)
 }
 
 var faultKinds = []string{"bit", "bit", "bit", "swap", "dup", "other-tile", "other-tile", "foreign", "foreign", "trunc-byte", "trunc-hash", "ext-byte", "ext-hash", "empty", "zero", "fewer-slices", "more-slices", "error"}
@@ -126,6 +127,12 @@ func genRead(t *rapid.T) readCase {
 	}
 	for i := 0; i < nc; i++ {
 		c.Coords = append(c.Coords, genCoordIn(t, c.N))
+	}
+	if gen.Chance(t, 1, "bulk") {
+		// one call that plans more tiles than any batch size a reader or the code itself might use (100, 256, 1000, 1024, 4096)
+		sh := [][2]int64{{1, 300}, {1, 1500}, {2, 1100}, {2, 4500}, {3, 9000}, {1, 5000}}[gen.Uniform(t, 6, "bulkshape")]
+		c.H, c.N, c.Coords = int(sh[0]), sh[1]+int64(rapid.IntRange(0, 9).Draw(t, "bulkextra")), nil
+		c.Bulk = []int{1, 1, 2, 3}[gen.Uniform(t, 4, "bulkevery")]
 	}
 	second := rapid.IntRange(0, 3).Draw(t, "second") == 0
 	if second {
@@ -286,7 +293,7 @@ func (r *faultyReader) SaveTiles(tiles []tlog.Tile, data [][]byte) {
 }
 
 func okRead(c readCase) bool {
-	if c.N < 1 || c.N > 100000 || c.H < 1 || c.H > 12 || len(c.Coords) > 64 || len(c.Faults) > 8 {
+	if c.N < 1 || c.N > 100000 || c.H < 1 || c.H > 12 || len(c.Coords) > 64 || c.Bulk < 0 || len(c.Faults) > 8 {
 		return false
 	}
 	for _, co := range append(append([]coord{}, c.Coords...), c.Coords2...) {
@@ -332,6 +339,13 @@ func checkRead(c readCase) pbt.Result {
 	if !okRead(c) {
 		r.Skip = true
 		return r
+	}
+	if c.Bulk > 0 && c.Bulk <= 64 && c.N <= 20000 {
+		c.Coords = nil
+		for off := int64(0); off < c.N; off += int64(c.Bulk) {
+			c.Coords = append(c.Coords, coord{Level: 0, Offset: off})
+		}
+		r.Classes = append(r.Classes, "bulk read")
 	}
 	key := tlogutil.Key{A: c.Seed, B: c.Seed, P: 0}
 	tree := tlogutil.ForkedTree(key, c.N)
